@@ -276,7 +276,7 @@ fn main() {
     let thorough = run.tier.is_thorough();
     run.rule(
         "One case = one (delimiter set, template name, source) run through add_raw_templates on an empty registry and \
-         through render_str with an empty context (both autoescape modes when it parses). Cases are distinct by \
+         through render_str with an empty context (both autoescape modes when it has tags and parses). Cases are distinct by \
          construction as (delimiter set, join, symbol sequence) / (seed, deviation) / (production, N, entry point, stack); \
          a few token sequences concatenate to the same text. Non-trivial = the source contains a start delimiter of \
          the set in force, i.e. the lexer leaves the plain-text state (pump / names families: every case).",
@@ -301,12 +301,12 @@ fn main() {
     let idx_of = |id: &str| ds.iter().position(|d| d.id == id).unwrap();
     let chars_plan: Vec<(usize, u32)> = if thorough { all_at(5) } else { all_at(4) };
     let tokens_plan: Vec<(usize, u32)> = if thorough {
-        (0..nd).map(|d| (d, if ["D0", "D2"].contains(&ds[d].id) { 4 } else { 3 })).collect()
+        (0..nd).map(|d| (d, if ["D0", "D1", "D2"].contains(&ds[d].id) { 4 } else { 3 })).collect()
     } else {
         (0..nd).map(|d| (d, if ["D0", "D1", "D2", "D3eq"].contains(&ds[d].id) { 3 } else { 2 })).collect()
     };
     let intag_plan: Vec<(usize, u32)> = if thorough {
-        (0..nd).map(|d| (d, if ["D0", "D2", "D3dash", "D3quote", "D3alnum"].contains(&ds[d].id) { 4 } else { 3 })).collect()
+        all_at(4)
     } else {
         (0..nd).map(|d| (d, if ["D0", "D1", "D2", "D3dash"].contains(&ds[d].id) { 3 } else { 2 })).collect()
     };
@@ -368,7 +368,7 @@ fn main() {
             "tokens",
             total,
             &format!(
-                "every sequence of <= L tokens over the {nt}-token alphabet (12 delimiter spellings of the set in force, 31 keywords, 30 operators, 8 literals, 4 identifiers, 6 text pieces), joined with \"\" and with \" \", L per delimiter set: {}",
+                "every sequence of <= L tokens over the {nt}-token alphabet (12 delimiter spellings of the set in force, 30 keywords, 30 operators, 8 literals, 4 identifiers, 6 text pieces), joined with \"\" and with \" \", L per delimiter set: {}",
                 depth_words(&parts, &ds)
             ),
         )
@@ -555,7 +555,6 @@ fn main() {
         a
     }
 
-    let n_opclasses = (seeds::N_OPS + 1) as u64; // 14 token operators + truncation
     // (delimiter set, seed) pairs. Thorough: every seed under every set. Quick: every seed under D0,
     // the seeds of <= 400 bytes under D1 and D2 (the cost of a seed grows with the square of its size).
     let seed_bytes = |s: &Seed| -> usize { s.templates.iter().map(|(_, t)| seeds::print(t, &delim_toks[0]).len()).sum() };
@@ -569,9 +568,29 @@ fn main() {
             }
         }
     }
+    // One item = (pair, operator class, chunk of <= 48 token positions / <= 96 cut points): items stay
+    // small (well under 0.1 s of CPU) whatever the size of the seed.
+    const CHUNK: usize = 48;
+    let print_seed = |di: usize, seed: &Seed| -> Vec<(String, String)> {
+        seed.templates.iter().map(|(n, t)| (n.clone(), seeds::print(t, &delim_toks[di]))).collect()
+    };
+    let mut seed_items: Vec<(u32, u8, u32)> = vec![];
+    for (pi, (di, si)) in seed_pairs.iter().enumerate() {
+        let seed = &all_seeds[*si];
+        let npos = seed.n_tokens();
+        for oc in 0..seeds::N_OPS {
+            for start in (0..npos.max(1)).step_by(CHUNK) {
+                seed_items.push((pi as u32, oc as u8, start as u32));
+            }
+        }
+        let ncuts: usize = print_seed(*di, seed).iter().map(|(_, s)| s.chars().count()).sum();
+        for start in (0..ncuts.max(1)).step_by(2 * CHUNK) {
+            seed_items.push((pi as u32, seeds::N_OPS as u8, start as u32));
+        }
+    }
     {
         let ns = all_seeds.len() as u64;
-        let total = seed_pairs.len() as u64 * n_opclasses;
+        let total = seed_items.len() as u64;
         let scope = if thorough {
             format!("under each of the {nd} delimiter sets")
         } else {
@@ -587,18 +606,20 @@ fn main() {
         )
         .timeout(120.0)
         .describe(|item| {
-            let oc = item % n_opclasses;
-            let (di, si) = seed_pairs[(item / n_opclasses) as usize];
+            let (pi, oc, start) = seed_items[item as usize];
+            let (di, si) = seed_pairs[pi as usize];
             json!({"family": "seeds-1dev", "delimiters": ds[di].show(), "seed": all_seeds[si].id,
-                   "operator_class": if oc == 14 { "every prefix".to_string() } else { format!("{:?} at every token", seeds::op_of(oc as usize)) }})
+                   "operator_class": if oc as usize == seeds::N_OPS { format!("every prefix, cut points {start}..{}", start as usize + 2 * CHUNK) }
+                                     else { format!("{:?} at token positions {start}..{}", seeds::op_of(oc as usize), start as usize + CHUNK) }})
         });
         run.family(fam, |item, acc| {
-            let oc = (item % n_opclasses) as usize;
-            let (di, si) = seed_pairs[(item / n_opclasses) as usize];
+            let (pi, oc, start) = seed_items[item as usize];
+            let (oc, start) = (oc as usize, start as usize);
+            let (di, si) = seed_pairs[pi as usize];
             let (d, seed) = (&ds[di], &all_seeds[si]);
             let mut r = Runner::new(&bases[di], "seeds-1dev");
-            let orig: Vec<(String, String)> = seed.templates.iter().map(|(n, t)| (n.clone(), seeds::print(t, &delim_toks[di]))).collect();
-            if oc == 0 {
+            let orig = print_seed(di, seed);
+            if oc == 0 && start == 0 {
                 // the unmodified seed, once
                 let a = run_seed(&mut r, d, seed, &orig, orig.len() - 1, &|| json!("none"), acc);
                 acc.count("seeds-unmodified", 1);
@@ -613,7 +634,7 @@ fn main() {
             }
             if oc < seeds::N_OPS {
                 let op = seeds::op_of(oc);
-                for (ti, k) in seed.positions() {
+                for (ti, k) in seed.positions().into_iter().skip(start).take(CHUNK) {
                     if let Op::Replace(j) = op
                         && seed.templates[ti].1[k] == menu[j]
                     {
@@ -625,13 +646,11 @@ fn main() {
                     run_seed(&mut r, d, seed, &printed, ti, &|| json!({"template": ti, "token": k, "op": format!("{op:?}")}), acc);
                 }
             } else {
-                for ti in 0..orig.len() {
-                    let full = orig[ti].1.clone();
-                    for (cut, _) in full.char_indices() {
-                        let mut printed = orig.clone();
-                        printed[ti].1 = full[..cut].to_string();
-                        run_seed(&mut r, d, seed, &printed, ti, &|| json!({"template": ti, "truncated_at_byte": cut}), acc);
-                    }
+                let cuts = orig.iter().enumerate().flat_map(|(ti, (_, s))| s.char_indices().map(move |(c, _)| (ti, c)));
+                for (ti, cut) in cuts.skip(start).take(2 * CHUNK) {
+                    let mut printed = orig.clone();
+                    printed[ti].1.truncate(cut);
+                    run_seed(&mut r, d, seed, &printed, ti, &|| json!({"template": ti, "truncated_at_byte": cut}), acc);
                 }
             }
             if item == 3 {
